@@ -664,6 +664,7 @@ main(void)
         free(bb);
         continue;
       }
+      vw_ino_collide = (rel == 'C'); // relation C: two different files whose inode numbers collide across devices
       for (int i = 0; i < 2; ++i) {
         track.al_fail[i]  = tok[4 + i][0] == 'N';
         track.al_errno[i] = track.al_fail[i] ? atoi(tok[4 + i] + 1) : 0;
